@@ -96,6 +96,9 @@ func genRows(r *lib.Rng) []Row {
 		rows[i] = Row{ID: int64(i + 1), Age: int64(r.Range(0, 5)), Name: lib.Pick(r, names)}
 		if r.Chance(3, 5) {
 			s := lib.Pick(r, nicks)
+			if r.Chance(1, 8) {
+				s = ""
+			}
 			rows[i].Nick = &s
 		}
 	}
